@@ -39,6 +39,7 @@ def load_protocol(col, rule="C03.R2", flag_rule=None):
     if not R:
         raise AnalysisError(f"{q}: no call of self.register -- cannot decide")
     ow = sx.pnamed("overwrite") if "overwrite" in sx.sym.params else None
+    all_reg = [e.nid for e, _ in R]
     for ev, m in R:
         mt = S.match(m["t"], S.fcall("ExprTask", S.V("lhs"), S.V("rhs")))
         if mt is None:
@@ -70,9 +71,9 @@ def load_protocol(col, rule="C03.R2", flag_rule=None):
             nxt = hdrs + [cfg.EXIT]
             not_ow = sx.branches(("uop", "not", ow))
             for x in nxt:
-                if cfg.path_avoiding(tb[0], x, [ev.nid] + br_in + [h for h in hdrs if h != x]) and x in cfg.reachable(tb[0], [ev.nid] + br_in):
+                if cfg.path_avoiding(tb[0], x, all_reg + br_in + [h for h in hdrs if h != x]) and x in cfg.reachable(tb[0], all_reg + br_in):
                     okc, factc = False, "an entry can be skipped although its target is not known to be defined"
-                if cfg.path_avoiding(tb[0], x, [ev.nid] + not_ow + [h for h in hdrs if h != x]) and x in cfg.reachable(tb[0], [ev.nid] + not_ow):
+                if cfg.path_avoiding(tb[0], x, all_reg + not_ow + [h for h in hdrs if h != x]) and x in cfg.reachable(tb[0], all_reg + not_ow):
                     okc, factc = False, "an entry can be skipped although overwrite is not known to be False"
         col.add(flag_rule or rule, f"{q}#overwrite-flag", okc, sx.loc(ev),
                 "an entry is skipped only if its target is currently defined and overwrite is False; it is replaced only if "
@@ -127,8 +128,8 @@ def _index_lists(col, rule="C03.R3"):
             continue
         # the entry deleted is empty: key = key∈D, some condition empty(val∈D) with the same D
         mk = S.match(e.key, ("key", S.V("d")))
-        empt = [c for c in e.conds if c[:1] == ("empty",)]
-        if not (mk and any(S.match(c, ("empty", ("val", mk["d"]))) is not None for c in empt)):
+        # `len(ss) == 0` or, for a container, `not ss`
+        if not (mk and any(c in (("empty", ("val", mk["d"])), ("uop", "not", ("val", mk["d"]))) for c in e.conds)):
             okd, facts = False, f"{e.short()} under {[S.show(c, False) for c in e.conds]}"
     col.add(rule, "Manager.cleanup#only-empty-entries", okd, sx.loc(sx.fn), "cleanup deletes only entries that are empty", facts)
     fn = repo.method("Manager", "verify")
